@@ -259,3 +259,144 @@ Proof.
 Qed.
 Theorem rec_spec_k_beyond k l : List.length l <= k -> rec_spec (Some k) l = qdivx (zq (sumlab l)) (zq (sumlab l)).
 Proof. intros Hk. unfold rec_spec. rewrite (retrieved_all k l Hk). reflexivity. Qed.
+
+(* ==========================================================================================
+   3. the retrieval classes: state after any sequence of updates, compute() in closed form
+   ========================================================================================== *)
+Lemma nth_mapi_from {X Y} (f : nat -> X -> Y) d d' : forall l i j, j < List.length l ->
+  nth j (mapi_from i f l) d = f (i + j) (nth j l d').
+Proof.
+  induction l as [|x l IH]; intros i j Hj; [cbn in Hj; lia|]. destruct j as [|j]; cbn [mapi_from nth].
+  - rewrite Nat.add_0_r. reflexivity.
+  - rewrite IH by (cbn in Hj; lia). f_equal. lia.
+Qed.
+Lemma nth_mapi {X Y} (f : nat -> X -> Y) d d' l j : j < List.length l -> nth j (mapi f l) d = f j (nth j l d').
+Proof. intros H. unfold mapi. rewrite (nth_mapi_from f d d') by exact H. reflexivity. Qed.
+Lemma mapi_length {X Y} (f : nat -> X -> Y) l : List.length (mapi f l) = List.length l.
+Proof. apply mapi_from_length. Qed.
+Lemma rupd_length c s b : List.length (rupd c s b) = List.length s.
+Proof. apply mapi_length. Qed.
+Lemma rupd_nth c s b i : i < List.length s -> nth i (rupd c s b) [] = rupd1 c i b (nth i s []).
+Proof. intros H. unfold rupd. rewrite (nth_mapi _ [] []) by exact H. reflexivity. Qed.
+Lemma rmrg_length c s ms : List.length (rmrg c s ms) = List.length s.
+Proof. apply mapi_length. Qed.
+Lemma rmrg_nth c s ms i : i < List.length s ->
+  nth i (rmrg c s ms) [] = nth i s [] ++ flat_map (fun m => nth i m []) ms.
+Proof. intros H. unfold rmrg. rewrite (nth_mapi _ [] []) by exact H. reflexivity. Qed.
+
+Definition rsel_items (c : rcfg) (i : nat) (b : rbatch) : list item :=
+  match rsel (r_nq c) i b with Some its => its | None => [] end.
+Lemma rdata_cons c i b bs : rdata c i (b :: bs) = rsel_items c i b ++ rdata c i bs.
+Proof. reflexivity. Qed.
+Lemma rupd1_topk c i b D : rupd1 c i b (topk (r_k c) D) = topk (r_k c) (D ++ rsel_items c i b).
+Proof.
+  unfold rupd1, rsel_items. destruct (rsel (r_nq c) i b) as [its|].
+  - apply topk_retention.
+  - rewrite app_nil_r. reflexivity.
+Qed.
+Lemma rupd_fold_nth c i : forall bs s D, i < List.length s -> nth i s [] = topk (r_k c) D ->
+  nth i (fold_left (rupd c) bs s) [] = topk (r_k c) (D ++ rdata c i bs).
+Proof.
+  induction bs as [|b bs IH]; intros s D Hi Hs; cbn [fold_left].
+  - cbn. rewrite app_nil_r. exact Hs.
+  - rewrite rdata_cons, app_assoc. apply IH; [rewrite rupd_length; exact Hi|].
+    rewrite rupd_nth by exact Hi. rewrite Hs. apply rupd1_topk.
+Qed.
+Lemma rupd_fold_length c : forall bs s, List.length (fold_left (rupd c) bs s) = List.length s.
+Proof. induction bs as [|b bs IH]; intros s; cbn [fold_left]; [reflexivity|]. rewrite IH. apply rupd_length. Qed.
+
+(* what the class retains for query i after ANY sequence of updates: the top-k of all the data
+   routed to that query (the model sorts canonically; for torch read: on tie-free scores) *)
+Theorem retr_class_state recall c bs i : i < r_nq c ->
+  nth i (fold_left (upd (retr_metric recall) c) bs (init (retr_metric recall) c)) [] = topk (r_k c) (rdata c i bs).
+Proof.
+  intros Hi. change (nth i (fold_left (rupd c) bs (repeat [] (r_nq c))) [] = topk (r_k c) (rdata c i bs)).
+  rewrite (rupd_fold_nth c i bs (repeat [] (r_nq c)) []).
+  - reflexivity.
+  - rewrite repeat_length. exact Hi.
+  - rewrite topk_nil. clear. revert i. induction (r_nq c) as [|n IH]; intros [|i]; cbn; try reflexivity. apply IH.
+Qed.
+
+Lemma list_as_nth {X} (d : X) : forall l, l = map (fun i => nth i l d) (seq 0 (List.length l)).
+Proof.
+  induction l as [|x l IH]; [reflexivity|]. cbn [List.length seq map nth]. f_equal.
+  rewrite <- seq_shift, map_map. exact IH.
+Qed.
+Theorem retr_class_compute recall c bs :
+  cmp (retr_metric recall) c (fold_left (upd (retr_metric recall) c) bs (init (retr_metric recall) c)) =
+  rfinish c (map (fun i => rquery recall c (topk (r_k c) (rdata c i bs))) (seq 0 (r_nq c))).
+Proof.
+  change (rcmp recall c (fold_left (rupd c) bs (repeat [] (r_nq c))) =
+          rfinish c (map (fun i => rquery recall c (topk (r_k c) (rdata c i bs))) (seq 0 (r_nq c)))).
+  unfold rcmp. f_equal.
+  set (s := fold_left (rupd c) bs (repeat [] (r_nq c))).
+  assert (Hl : List.length s = r_nq c).
+  { unfold s. rewrite rupd_fold_length, repeat_length. reflexivity. }
+  rewrite (list_as_nth [] s) at 1. rewrite map_map, Hl. apply map_ext_in. intros i Hi. apply in_seq in Hi.
+  unfold s. f_equal. apply (retr_class_state recall c bs i). lia.
+Qed.
+
+(* ---- per query: class value vs the definition on all the data ---- *)
+Lemma topk_length k l : List.length (topk k l) = match k with Some k => Nat.min k (List.length l) | None => List.length l end.
+Proof.
+  destruct k as [k|]; cbn [topk]; [rewrite firstn_length|]; rewrite (Permutation_length (sortd_perm l)); reflexivity.
+Qed.
+Lemma is_nil_length {X} (l : list X) : is_nil l = Nat.eqb (List.length l) 0.
+Proof. destruct l; reflexivity. Qed.
+Lemma topk_is_nil k l : k <> Some 0 -> is_nil (topk k l) = is_nil l.
+Proof.
+  intros Hk. rewrite !is_nil_length, topk_length. destruct k as [k|]; [|reflexivity].
+  destruct k as [|k]; [congruence|]. destruct l; reflexivity.
+Qed.
+Lemma in_topk k l x : In x (topk k l) -> In x l.
+Proof.
+  intros H. apply (Permutation_in _ (sortd_perm l)). destruct k; cbn [topk] in H; [eapply in_firstn|]; exact H.
+Qed.
+Lemma has1_topk k l : has1 (topk k l) = true -> has1 l = true.
+Proof.
+  unfold has1. rewrite !existsb_exists. intros [x [Hx H1]]. exists x. split; [eapply in_topk; exact Hx|exact H1].
+Qed.
+Lemma nb_retrieved_topk k lim l :
+  nb_retrieved k lim (List.length (topk k l)) = nb_retrieved k lim (List.length l).
+Proof. rewrite topk_length. destruct k as [k|]; cbn [nb_retrieved]; [destruct lim|]; lia. Qed.
+
+(* RetrievalPrecision: the class value is the definition's value unless relevant items exist but
+   all of them were pruned out of the retained top-k (then the class applies empty_target_action) *)
+Theorem rquery_prec_eq c D : r_k c <> Some 0 -> tie_free D ->
+  (has1 (topk (r_k c) D) = true \/ has1 D = false) ->
+  rquery false c (topk (r_k c) D) = rquery_spec false c D.
+Proof.
+  intros Hk Htf Hc. unfold rquery, rquery_spec. rewrite (topk_is_nil _ D Hk).
+  destruct (is_nil D); [reflexivity|].
+  assert (Hh : has1 (topk (r_k c) D) = has1 D).
+  { destruct Hc as [H|H]; [rewrite H; symmetry; eapply has1_topk; exact H|].
+    rewrite H. destruct (has1 (topk (r_k c) D)) eqn:E; [apply has1_topk in E; congruence|reflexivity]. }
+  rewrite Hh. destruct (has1 D); cbn [negb]; [|reflexivity]. f_equal.
+  unfold prec_fn, prec_spec. rewrite topk_idem, nb_retrieved_topk, (sumlab_topk _ D Htf). reflexivity.
+Qed.
+(* RetrievalRecall: right only when nothing relevant lies outside the retained top-k *)
+Theorem rquery_recall_eq c D : r_k c <> Some 0 -> tie_free D ->
+  sumlab (topk (r_k c) D) = sumlab D -> has1 (topk (r_k c) D) = has1 D ->
+  rquery true c (topk (r_k c) D) = rquery_spec true c D.
+Proof.
+  intros Hk Htf Hs Hh. unfold rquery, rquery_spec. rewrite (topk_is_nil _ D Hk), Hh.
+  destruct (is_nil D); [reflexivity|]. destruct (has1 D); cbn [negb]; [|reflexivity]. f_equal.
+  unfold rec_fn, rec_spec. rewrite topk_idem, Hs, <- (sumlab_topk _ D Htf), Hs. reflexivity.
+Qed.
+(* ... and when something relevant IS retained, the class always reports sum/sum (D3) *)
+Theorem rquery_recall_asis c D : r_k c <> Some 0 -> has1 (topk (r_k c) D) = true ->
+  rquery true c (topk (r_k c) D) =
+  Some (qdivx (zq (sumlab (topk (r_k c) D))) (zq (sumlab (topk (r_k c) D)))).
+Proof.
+  intros Hk Hh. unfold rquery. rewrite Hh. cbn [negb].
+  destruct (is_nil (topk (r_k c) D)) eqn:E; [destruct (topk (r_k c) D); [discriminate Hh|discriminate E]|].
+  unfold rec_fn. rewrite topk_idem. reflexivity.
+Qed.
+
+Theorem retr_class_eq_spec recall c bs :
+  (forall i, i < r_nq c -> rquery recall c (topk (r_k c) (rdata c i bs)) = rquery_spec recall c (rdata c i bs)) ->
+  cmp (retr_metric recall) c (fold_left (upd (retr_metric recall) c) bs (init (retr_metric recall) c)) = rclass_spec recall c bs.
+Proof.
+  intros H. rewrite retr_class_compute. unfold rclass_spec. f_equal. apply map_ext_in. intros i Hi.
+  apply in_seq in Hi. apply H. lia.
+Qed.
